@@ -33,3 +33,26 @@ package rostdio
 //@ loop NewIOReaderLine$1#0
 //@   iteration ensures count(call.Reader.ReadLine) == 1 && res(call.Reader.ReadLine, 2) == nil
 //@   iteration ensures count(destination.NextWithContext) == 1 && before(call.Reader.ReadLine, destination.NextWithContext) && arg(destination.NextWithContext, 0) == ctx && len(arg(destination.NextWithContext, 1)) == len(res(call.Reader.ReadLine, 0))
+
+// Sinks: every chunk is handed to the writer once, the number of bytes the writer accepted is emitted exactly once, just
+// before the terminal notification - whichever way the stream ends.
+
+//@ operator NewIOWriter
+//@   props C18 C09
+//@   ghost n int = 0
+//@   inv count == n
+//@   track writer.Write
+//@   on next(ctx, value) when res(writer.Write, 1) == nil : emits writer.Write(value) ; n' = n + res(writer.Write, 0)
+//@   on next(ctx, value) when res(writer.Write, 1) != nil : emits writer.Write(value), Next(ctx, n), Error(ctx, res(writer.Write, 1))
+//@   on error(ctx, err) : emits Next(ctx, n), Error(ctx, err)
+//@   on complete(ctx) : emits Next(ctx, n), Complete(ctx)
+
+//@ operator NewStdWriter
+//@   props C18 C09
+//@   ghost n int = 0
+//@   inv count == n
+//@   track call.File.Write
+//@   on next(ctx, value) when res(call.File.Write, 1) == nil : emits call.File.Write(global_Stdout, value) ; n' = n + res(call.File.Write, 0)
+//@   on next(ctx, value) when res(call.File.Write, 1) != nil : emits call.File.Write(global_Stdout, value), Next(ctx, n), call.File.Write(global_Stderr, _), Error(ctx, res(call.File.Write, 1))
+//@   on error(ctx, err) : emits Next(ctx, n), call.File.Write(global_Stderr, _), Error(ctx, err)
+//@   on complete(ctx) : emits Next(ctx, n), Complete(ctx)
